@@ -38,14 +38,19 @@ type c11Case struct {
 	Path     string
 	CT       []string  // Content-Type header values (nil = absent)
 	Hdrs     []HdrPair // extra request headers
-	BodyKind string    // proto | json | frames | raw
+	BodyKind string    // proto | json | frames | frames-cut | raw
 	Msg      MsgSpec   `json:",omitempty"`
 	NFrames  int       `json:",omitempty"`
 	Raw      []byte    `json:",omitempty"`
 	// handler behaviour once invoked
-	NoRecv  bool   `json:",omitempty"` // stream handler does not read the request stream at all
-	RespN   int    // stream: number of responses
-	ErrCode uint32 // 0 = ok
+	// frames-cut: the frame sequence is truncated; CutFrame/CutAt say where (bytes of frame CutFrame kept; 0 = at the boundary)
+	CutFrame int `json:",omitempty"`
+	CutAt    int `json:",omitempty"`
+	// RetRecvErr: the stream handler returns a non-EOF receive error as its result, as handlers normally do
+	RetRecvErr bool   `json:",omitempty"`
+	NoRecv     bool   `json:",omitempty"` // stream handler does not read the request stream at all
+	RespN      int    // stream: number of responses
+	ErrCode    uint32 // 0 = ok
 	// JSONTwin: additionally send the same message JSON-encoded and compare (valid unary requests only)
 	JSONTwin bool `json:",omitempty"`
 }
@@ -89,6 +94,9 @@ func (c *c11Case) service(r *c11Run) *Service {
 					r.mu.Lock()
 					r.recvErr = err.Error()
 					r.mu.Unlock()
+					if c.RetRecvErr && err != io.EOF {
+						return err
+					}
 					break
 				}
 				r.mu.Lock()
@@ -129,8 +137,30 @@ func (c *c11Case) body(ct string) []byte {
 			ms = append(ms, m)
 		}
 		return encodeStream(ms, nil)
+	case "frames-cut":
+		b, _, _ := c.cutBody()
+		return b
 	}
 	return c.Raw
+}
+
+// cutBody builds the truncated frame sequence and says how many frames are complete and whether the cut
+// falls inside a frame (as opposed to on a frame boundary).
+func (c *c11Case) cutBody() (body []byte, complete int, inside bool) {
+	for i := 0; i < c.NFrames; i++ {
+		m := c.Msg.Build()
+		m.Count = int32(i)
+		fr := appendFrame(nil, mustMarshal(m), false)
+		if i == c.CutFrame {
+			k := c.CutAt
+			if k >= len(fr) {
+				k = len(fr) - 1
+			}
+			return append(body, fr[:k]...), i, k > 0
+		}
+		body = append(body, fr...)
+	}
+	return body, c.NFrames, false
 }
 
 type c11Reply struct {
@@ -140,6 +170,7 @@ type c11Reply struct {
 	Panic   string
 	Entered int
 	AppRuns int
+	RecvErr string
 	Req     *pb.Message
 }
 
@@ -168,7 +199,7 @@ func (c *c11Case) exec(ctValues []string, body []byte) *c11Reply {
 	rep.Status, rep.Header = res.StatusCode, res.Header
 	rep.Body, _ = io.ReadAll(res.Body)
 	r.mu.Lock()
-	rep.Entered, rep.AppRuns, rep.Req = r.entered, r.appRuns, r.gotReq
+	rep.Entered, rep.AppRuns, rep.Req, rep.RecvErr = r.entered, r.appRuns, r.gotReq, r.recvErr
 	r.mu.Unlock()
 	return rep
 }
@@ -227,7 +258,7 @@ func propC11(c c11Case) *Outcome {
 	body := c.body(ct)
 	rep := c.exec(c.CT, body)
 	o.Observed = map[string]interface{}{"status": rep.Status, "x-grpc-status": rep.Header.Get("X-Grpc-Status"), "entered": rep.Entered, "app_runs": rep.AppRuns, "body_len": len(rep.Body), "panic": rep.Panic}
-	o.NonTrivial = violations > 0 || c.BodyKind == "raw" || c.BodyKind == "json" || (kind == kUnary && c.BodyKind == "frames")
+	o.NonTrivial = violations > 0 || c.BodyKind == "raw" || c.BodyKind == "json" || c.BodyKind == "frames-cut" || (kind == kUnary && c.BodyKind == "frames")
 	if rep.Panic != "" {
 		return o.failf("server panicked: %s", rep.Panic)
 	}
@@ -309,6 +340,36 @@ func propC11(c c11Case) *Outcome {
 	}
 	if d.Rest != 0 {
 		return o.failf("stream reply has %d bytes after the trailer frame (second trailer?)", d.Rest)
+	}
+	if c.BodyKind == "frames-cut" && !c.NoRecv {
+		// a request stream that ends inside a frame is not a clean end of stream: the handler's RecvMsg
+		// yields the complete messages and then an error other than io.EOF
+		_, complete, inside := c.cutBody()
+		o.class("cut:inside=%v/after-preface=%v", inside, c.CutAt == 4)
+		// (methods that take one request refuse anything after the first frame; that is C20's subject, so
+		// only bodies of at most one frame are judged for them)
+		judged := clientStreaming(kind) || complete == 0 || (complete == 1 && !inside && c.NFrames == 1)
+		if !judged {
+			return o
+		}
+		if rep.AppRuns != complete {
+			return o.failf("request stream cut in frame %d after %d bytes: handler received %d messages, %d complete frames were sent", c.CutFrame, c.CutAt, rep.AppRuns, complete)
+		}
+		reachedCut := clientStreaming(kind) || complete == 0
+		if reachedCut && inside {
+			if rep.RecvErr == "" || rep.RecvErr == io.EOF.Error() {
+				return o.failf("request stream cut inside frame %d (%d bytes of it arrived): handler's RecvMsg reported %q, i.e. a normal end of stream", c.CutFrame, c.CutAt, rep.RecvErr)
+			}
+			if c.RetRecvErr {
+				if d.TrailerMsg.Code == 0 {
+					return o.failf("handler returned its receive error %q, trailer says OK", rep.RecvErr)
+				}
+				return o
+			}
+		}
+		if reachedCut && !inside && rep.RecvErr != io.EOF.Error() {
+			return o.failf("request stream of %d complete frames: handler's RecvMsg ended with %q, expected EOF", complete, rep.RecvErr)
+		}
 	}
 	if uint32(d.TrailerMsg.Code) != c.ErrCode && d.TrailerMsg.Code != int32(codes.InvalidArgument) && rep.AppRuns >= 0 {
 		// the handler's own status must be in the trailer unless its RecvMsg failed first
@@ -439,6 +500,13 @@ func genC11(t *rapid.T) c11Case {
 	if c.BodyKind == "raw" {
 		c.Raw = rapid.OneOf(rapid.SliceOfN(rapid.Byte(), 0, 40), rapid.SampledFrom(hostilePrefixes), rapid.Just([]byte(`{"count": "x"}`)), rapid.Just([]byte(`{"count": 5, "nosuch": 1}`)), rapid.Just([]byte(`{`))).Draw(t, "raw")
 	}
+	if kind != "" && kind != kUnary && rapid.IntRange(0, 3).Draw(t, "cutbody") == 0 {
+		c.BodyKind = "frames-cut"
+		c.NFrames = rapid.IntRange(1, 3).Draw(t, "cutnframes")
+		c.CutFrame = rapid.IntRange(0, c.NFrames-1).Draw(t, "cutframe")
+		c.CutAt = rapid.SampledFrom([]int{0, 1, 2, 3, 4, 4, 4, 5, 6, 9, 1 << 20}).Draw(t, "cutat")
+		c.RetRecvErr = rapid.Bool().Draw(t, "retrecverr")
+	}
 	c.RespN = rapid.IntRange(0, 3).Draw(t, "respn")
 	if kind == kClientStream {
 		c.RespN = 1
@@ -451,8 +519,8 @@ func genC11(t *rapid.T) c11Case {
 
 func init() { registerReplay("C11", propC11) }
 
-const c11Rule = "rapid-generated HTTP requests against httpgrpc.Server and HandleServices via httptest: method (POST/GET/HEAD/PUT/DELETE/OPTIONS/PATCH/case variants/custom tokens) x path (each registered kind, unregistered, near misses) x Content-Type grammar (known types, case variants, parameters, malformed parameters, unknown, empty, absent, duplicated) x header sets (valid/invalid base64 in -bin headers, good/bad GRPC-Timeout) x body (protobuf, protojson, frame sequences, arbitrary bytes, hostile prefixes); " +
-	"oracle = gate model: handler entered <=1 times and only if POST + supported media type (mime.ParseMediaType) + all -bin headers decode, otherwise 405/415/400/404 each only if its condition is violated; undecodable unary body => X-GRPC-Status 3 without application code; JSON twin of a protobuf request => equal request, response, status; stream replies parse (reference decoder) as frames + exactly one trailer, nothing after; never a panic; " +
+const c11Rule = "rapid-generated HTTP requests against httpgrpc.Server and HandleServices via httptest: method (POST/GET/HEAD/PUT/DELETE/OPTIONS/PATCH/case variants/custom tokens) x path (each registered kind, unregistered, near misses) x Content-Type grammar (known types, case variants, parameters, malformed parameters, unknown, empty, absent, duplicated) x header sets (valid/invalid base64 in -bin headers, good/bad GRPC-Timeout) x body (protobuf, protojson, frame sequences, frame sequences truncated at/inside a frame incl. right after a size preface, arbitrary bytes, hostile prefixes); " +
+	"oracle = gate model: handler entered <=1 times and only if POST + supported media type (mime.ParseMediaType) + all -bin headers decode, otherwise 405/415/400/404 each only if its condition is violated; undecodable unary body => X-GRPC-Status 3 without application code; JSON twin of a protobuf request => equal request, response, status; stream replies parse (reference decoder) as frames + exactly one trailer, nothing after; a request stream cut inside a frame gives the handler its complete messages then a non-EOF error (non-OK trailer when the handler returns it), one cut on a boundary gives EOF; never a panic; " +
 	"non-trivial = >=1 gate violated, or arbitrary/JSON body, or a frame body to a unary method; distinct by case hash"
 
 func TestC11(t *testing.T) {
